@@ -554,18 +554,7 @@ where
                             // the listener keys are only known at runtime
                             has_dynamic_keys = true;
 
-                            // keep source order: attributes written before come first
-                            if !props.is_empty() {
-                                merge_args.push(Expr::Object(ObjectLit {
-                                    span: DUMMY_SP,
-                                    props: if self.options.merge_props {
-                                        util::dedupe_props(mem::take(&mut props))
-                                    } else {
-                                        mem::take(&mut props)
-                                    },
-                                }));
-                            }
-                            merge_args.push(Expr::Call(CallExpr {
+                            let transformed = Expr::Call(CallExpr {
                                 span: DUMMY_SP,
                                 callee: Callee::Expr(Box::new(Expr::Ident(
                                     self.transform_on_helper
@@ -577,7 +566,22 @@ where
                                     expr: attr_value,
                                 }],
                                 ..Default::default()
-                            }));
+                            });
+                            // keep source order, like a spread attribute
+                            if self.options.merge_props {
+                                if !props.is_empty() {
+                                    merge_args.push(Expr::Object(ObjectLit {
+                                        span: DUMMY_SP,
+                                        props: util::dedupe_props(mem::take(&mut props)),
+                                    }));
+                                }
+                                merge_args.push(transformed);
+                            } else {
+                                props.push(PropOrSpread::Spread(SpreadElement {
+                                    dot3_token: DUMMY_SP,
+                                    expr: Box::new(transformed),
+                                }));
+                            }
                         } else {
                             props.push(PropOrSpread::Prop(Box::new(Prop::KeyValue(
                                 KeyValueProp {
